@@ -16,6 +16,7 @@ mod groups;
 mod c11;
 mod c12;
 mod c14;
+mod c18;
 mod c19;
 mod c20;
 
@@ -46,6 +47,8 @@ fn main() {
         ("C13", "drive") => c12::drive_c13(rest),
         ("C14", "replay") => c14::replay(rest),
         ("C14", "drive") => c14::drive(rest),
+        ("C18", "replay") => c18::replay(rest),
+        ("C18", "drive") => c18::drive(rest),
         ("C19", "replay") => c19::replay(rest),
         ("C19", "drive") => c19::drive(rest),
         ("C20", "replay") => c20::replay(rest),
